@@ -754,6 +754,102 @@ func TestC19(t *testing.T) {
 			}
 		}
 	})
+	// (5) the query response protocol itself: every sequence of writer events up to the
+	// depth (batches on three channels, end-of-channel, progress, a trailing error) written by
+	// queryio.Writer with control messages and read back by the client's queryio.NewScanner
+	// must deliver the same (channel, value) sequence, end-of-channel markers and error
+	protoDepth := 5
+	if rep.Thorough() {
+		protoDepth = 6
+	}
+	type pev struct {
+		kind string // "batch", "end", "progress", "error"
+		ch   string
+	}
+	var alphabet []pev
+	for _, ch := range []string{"main", "a", "b"} {
+		alphabet = append(alphabet, pev{"batch", ch}, pev{"end", ch})
+	}
+	alphabet = append(alphabet, pev{"progress", ""})
+	var protoSeqs [][]pev
+	var genp func(prefix []pev)
+	genp = func(prefix []pev) {
+		if len(prefix) > 0 {
+			protoSeqs = append(protoSeqs, append([]pev(nil), prefix...), append(append([]pev(nil), prefix...), pev{"error", ""}))
+		}
+		if len(prefix) == protoDepth {
+			return
+		}
+		for _, e := range alphabet {
+			genp(append(prefix, e))
+		}
+	}
+	genp(nil)
+	parallel(len(protoSeqs), func(i int) {
+		seq := protoSeqs[i]
+		var buf bytes.Buffer
+		w, err := queryio.NewWriter(zio.NopCloser(&buf), "zng", nil, true)
+		if err != nil {
+			t.Errorf("harness: %v", err)
+			return
+		}
+		var want []string
+		wantErr := ""
+		for k, e := range seq {
+			switch e.kind {
+			case "batch":
+				v := zed.NewInt64(int64(k))
+				if err := w.WriteBatch(e.ch, zbuf.NewArray([]zed.Value{v})); err != nil {
+					t.Errorf("harness: WriteBatch: %v", err)
+					return
+				}
+				want = append(want, fmt.Sprintf("%s:%d", e.ch, k))
+			case "end":
+				w.WhiteChannelEnd(e.ch)
+				want = append(want, "end:"+e.ch)
+			case "progress":
+				w.WriteProgress(zbuf.Progress{})
+			case "error":
+				w.WriteError(errors.New("boom"))
+				wantErr = "boom"
+			}
+		}
+		w.Close()
+		sc, err := queryio.NewScanner(ctx, io.NopCloser(bytes.NewReader(buf.Bytes())))
+		if err != nil {
+			t.Errorf("harness: %v", err)
+			return
+		}
+		var got []string
+		gotErr := ""
+		for {
+			b, err := sc.Pull(false)
+			if err != nil {
+				gotErr = err.Error()
+				break
+			}
+			if b == nil {
+				break
+			}
+			if eoc, ok := b.(*zbuf.EndOfChannel); ok {
+				got = append(got, "end:"+string(*eoc))
+				continue
+			}
+			inner, label := zbuf.Unlabel(b)
+			for _, v := range inner.Values() {
+				got = append(got, label+":"+zson.FormatValue(v))
+			}
+			b.Unref()
+		}
+		mu.Lock()
+		run.Eval(fmt.Sprint("protocol", seq))
+		mu.Unlock()
+		stats.add("protocol_sequences", 1)
+		if strings.Join(want, " ") != strings.Join(got, " ") || wantErr != gotErr {
+			violation("protocol symptom=client-sees-a-different-stream-than-the-service-wrote", map[string]any{"events": fmt.Sprint(seq), "written": want, "read": got, "error_written": wantErr, "error_read": gotErr})
+		}
+	})
+
 	mu.Lock()
 	for k, v := range stats.m {
 		run.Set(k, v)
@@ -761,7 +857,7 @@ func TestC19(t *testing.T) {
 	mu.Unlock()
 	run.Sample(map[string]any{"alphabet_small": len(small), "alphabet_full": len(full), "depth_from_empty": depth0, "depth_from_prelude": depth1, "load_cases": len(lcases), "query_cases": len(qcases), "example_history": fmt.Sprint(hs[len(hs)/2].ops)})
 	run.Set("exhaustive", !expired())
-	run.Set("rule", "(1) every operation sequence of the stated depth over the alphabet (pool create/rename/drop, branch create/drop, loads incl. empty, delete by id and by predicate, compact, merge, revert, vectors, vacuum, queries incl. failing ones), from the empty lake and from a 5-operation prelude state, applied in lock step to a lake through lakeapi.FromRoot and to a second lake through lakeapi.NewRemoteLake over an httptest server running service.Core; after every step: same ok/error outcome, same query output in order, and the same state (pools with sort keys/threshold/stride, branches, branch contents in scan order, object ranges/counts/vector flags, commit-path lengths) read through independent direct handles. (2) three inputs x ten encodings x {declared content type, auto-detect} plus mismatched declarations, loaded through Connection.Load and through anyio+Load directly. (3) eight queries x every response format x ctrl {T,F}: the response body must equal the direct output written by the same writer (values for zng). (4) the same with the last data object missing or truncated so the query fails after streaming started: the failure must be visible to the client (HTTP status, transport error, in-band error message or the /query/status/{request id} endpoint)")
+	run.Set("rule", "(1) every operation sequence of the stated depth over the alphabet (pool create/rename/drop, branch create/drop, loads incl. empty, delete by id and by predicate, compact, merge, revert, vectors, vacuum, queries incl. failing ones), from the empty lake and from a 5-operation prelude state, applied in lock step to a lake through lakeapi.FromRoot and to a second lake through lakeapi.NewRemoteLake over an httptest server running service.Core; after every step: same ok/error outcome, same query output in order, and the same state (pools with sort keys/threshold/stride, branches, branch contents in scan order, object ranges/counts/vector flags, commit-path lengths) read through independent direct handles. (2) three inputs x ten encodings x {declared content type, auto-detect} plus mismatched declarations, loaded through Connection.Load and through anyio+Load directly. (3) eight queries x every response format x ctrl {T,F}: the response body must equal the direct output written by the same writer (values for zng). (4) the same with the last data object missing or truncated so the query fails after streaming started: the failure must be visible to the client (HTTP status, transport error, in-band error message or the /query/status/{request id} endpoint). (5) every sequence of up to 5 (thorough 6) response events (a batch on one of three channels, end of a channel, progress), with and without a trailing error, written by queryio.Writer with control messages and read back by queryio.NewScanner: same (channel, value) sequence, end-of-channel markers and error")
 	run.Assume("both lakes live on the real file system; ids differ between them, so ids are excluded from the comparison and objects are addressed by canonical index")
 	run.Assume("one client at a time; concurrent requests are C12/C13's subject")
 }
